@@ -336,4 +336,14 @@ func runC20(tier string, seed uint64, rep *Report) {
 		}
 		rep.Histogram["names"]++
 	}
+	// a name given explicitly is used as given (only derived names are hyphenated), and nothing else gets bound
+	e2 := env.NewEnv()
+	call.CallOverrideFN(e2, "str_len", Plain_Named_Fn)
+	call.CallOverrideFN(e2, "Mixed_Case?", func(a types.MalType) (types.MalType, error) { return a, nil })
+	for name, want := range map[string]bool{"str_len": true, "str-len": false, "Mixed_Case?": true, "mixed-case?": false, "Mixed-Case?": false, "plain-named-fn": false} {
+		if (e2.Find(types.Symbol{Val: name}) != nil) != want {
+			rep.Violate(-1, fmt.Sprintf("after CallOverrideFN(env, \"str_len\", f) and CallOverrideFN(env, \"Mixed_Case?\", g): is %q bound? expected %v", name, want), name)
+		}
+		rep.Histogram["names"]++
+	}
 }
